@@ -150,8 +150,54 @@ func TestCLI(t *testing.T) {
 	if cli.Binary() == "" {
 		t.Skip("no goalign binary")
 	}
-	dir := cli.TempDir("c12cli")
-	pbt.Run(t, genCLI, func(c cliCase) (o pbt.Outcome, err error) {
+	pbt.Run(t, genCLI, checkCLI(cli.TempDir("c12cli")))
+}
+
+// TestCLIEveryLetter: every letter (both cases) as the chosen character of clean sites / clean seqs,
+// alone and together with each ignore option, on a fixed small protein and nucleotide alignment
+// holding that letter: a chosen character is any character, the refusals the model knows
+// (--ignore-n with N/n, --ignore-gaps with '-') must not extend to other letters.
+func TestCLIEveryLetter(t *testing.T) {
+	if cli.Binary() == "" {
+		t.Skip("no goalign binary")
+	}
+	check := checkCLI(cli.TempDir("c12letters"))
+	pbt.Enumerate(t, "clean sites / clean seqs --char <every letter A-Z a-z> x {no option, --ignore-n, --ignore-gaps, --ignore-case}", func(yield func(cliCase) bool) {
+		const letters = "ABCDEFGHIJKLMNOPQRSTUVWXYZabcdefghijklmnopqrstuvwxyz"
+		for i := 0; i < len(letters); i++ {
+			ch := string(letters[i])
+			for _, sub := range []string{"sites", "seqs"} {
+				for opt := 0; opt < 4; opt++ {
+					// J, U, O would make the detected alphabet of the file "unknown": they are only chosen, not present
+					in := ch
+					if strings.ContainsAny(ch, "JUOjuo") {
+						in = "A"
+					}
+					c := cliCase{Sub: sub, Alpha: "aa", Char: ch, P: 1, Q: 2, Quiet: opt%2 == 0,
+						Rows: []string{in + "L" + in + "-A", in + "LA-" + in, "NL-x" + in, "ALnXA"}}
+					switch opt {
+					case 1:
+						c.IN = true
+					case 2:
+						c.IG = true
+					case 3:
+						c.IC = true
+					}
+					if !yield(c) {
+						return
+					}
+				}
+			}
+		}
+	}, func(c cliCase) (pbt.Outcome, error) {
+		o, err := check(c)
+		o.Key = c.Sub + c.Char + fmt.Sprint(c.IN, c.IG, c.IC)
+		return o, err
+	})
+}
+
+func checkCLI(dir string) func(c cliCase) (pbt.Outcome, error) {
+	return func(c cliCase) (o pbt.Outcome, err error) {
 		all := append([][]string{c.Rows}, c.More...)
 		var rows []gen.Row
 		for i, r := range c.Rows {
@@ -387,7 +433,7 @@ func TestCLI(t *testing.T) {
 			return o, fmt.Errorf("goalign %v: the position files hold %d kept and %d removed entries more than the %d alignments have columns", args, len(keptAll), len(rmAll), len(all))
 		}
 		return o, nil
-	})
+	}
 }
 
 // parsePhylip reads sequential one-line Phylip blocks: " n l" followed by n lines "name  residues"
